@@ -11,7 +11,7 @@
 From Coq Require Import Lia.
 From AV Require Import Base.Bytes Base.Outcome Hash.HashModel Spec.SpecOps Tree.Heap Tree.Ops Tree.Script Tree.Script2 Tree.Compat Tree.Serialize
   Tree.IndexProofsW Tree.Index Tree.IndexProofsBase Tree.IndexProofsFrame Tree.IndexProofs Tree.Refs Tree.RefsProofs Tree.RefsAll
-  Tree.IndexProofsNodeInv Tree.IndexProofsAll Tree.RefsProofsSetName Tree.Sort Tree.SortProofsOrder Tree.SortProofsHeap Tree.SortProofsNames Tree.IndexProofsSort Tree.Inv Tree.IndexProofsBridge Tree.IndexProofsDup.
+  Tree.IndexProofsNodeInv Tree.IndexProofsAll Tree.RefsProofsSetName Tree.Sort Tree.SortProofsOrder Tree.SortProofsHeap Tree.SortProofsNames Tree.IndexProofsSort Tree.Inv Tree.IndexProofsBridge Tree.IndexProofsDup Tree.IndexProofsFilesOps.
 Open Scope string_scope.
 Open Scope list_scope.
 Open Scope N_scope.
@@ -176,12 +176,13 @@ Qed.
 
 (* ---------- the whole alphabet except load_buffer *)
 Definition Pending45_3 (o : op2) : bool := match o with OpLoad _ _ _ _ => true | _ => false end.
-(* side conditions: the finding classes of the 26 constructors; NameFirst for the sorts (a SHORT-NAME child of a named element is
-   its first and only one: what the editing API builds); the classes of the copy steps of a duplicate, decided along the run *)
+(* side conditions: the finding classes of the 26 constructors; for the sorts no late SHORT-NAME element (Index.late_short, the
+   class used for remove_file and the copies; it implies agent-c14's NameFirst); the classes of the copy steps of a duplicate,
+   decided along the run *)
 Definition Side45_2 (w : world) (o : op2) : Prop :=
   match o with
   | Op1 o1 => Known04a w o1 = false /\ Known05a w o1 = false
-  | OpSort _ | OpSortModel _ => NameFirst T w
+  | OpSort _ | OpSortModel _ => late_short T w = false
   | OpDuplicate m => dup_clean T tab_el tab_en check_fn LATEST root_attrs w m = true
   | _ => True
   end.
@@ -193,10 +194,10 @@ Proof.
   intros HT H4 H5 HX HS HP H. pose proof (treeinv_treefacts w HT) as HF.
   destruct o; try discriminate HP; cbn [Side45_2] in HS.
   - destruct HS as (K4 & K5). eapply (C45_inv2_partial w (Op1 o)); eauto. cbn [Known45_2]. rewrite K4, K5. reflexivity.
-  - cbn [run_op2] in H. apply wmap2_inv in H as (r0 & H).
-    destruct (C45_sort_step w w' HF H4 H5 HX HS (e_sort_kept h w r0 w' HS H)) as (_ & A & B & C). auto.
-  - cbn [run_op2] in H. apply wmap2_inv in H as (r0 & H).
-    destruct (C45_sort_step w w' HF H4 H5 HX HS (m_sort_kept m w r0 w' HS H)) as (_ & A & B & C). auto.
+  - cbn [run_op2] in H. apply wmap2_inv in H as (r0 & H). pose proof (nolate_namefirst T w (late_short_false T w HF HS)) as NF.
+    destruct (C45_sort_step w w' HF H4 H5 HX NF (e_sort_kept h w r0 w' NF H)) as (_ & A & B & C). auto.
+  - cbn [run_op2] in H. apply wmap2_inv in H as (r0 & H). pose proof (nolate_namefirst T w (late_short_false T w HF HS)) as NF.
+    destruct (C45_sort_step w w' HF H4 H5 HX NF (m_sort_kept m w r0 w' NF H)) as (_ & A & B & C). auto.
   - cbn [run_op2] in H. apply wmap2_inv in H as (r0 & H).
     destruct (C45_duplicate T tab_el tab_en check_fn LATEST root_attrs TK RootTy m w r0 w' (conj HT (conj H4 (conj H5 HX))) HS H) as (A & B & C & _). auto.
   - eapply (C45_inv2_partial w (OpSetVersion f v)); eauto.
